@@ -338,7 +338,12 @@ func getAllElements(current xsd.Type) []xsd.Element {
 		if parent == nil || parent == xsd.AnyType {
 			return concreteCurrent.Elements
 		} else if concreteParent, pok := parent.(*xsd.ComplexType); pok {
-			return append(getAllElements(concreteParent), concreteCurrent.Elements...)
+			inherited := getAllElements(concreteParent)
+			// copy: appending to the parent's slice would write into its spare capacity, which every
+			// other type derived from the same parent shares
+			all := make([]xsd.Element, 0, len(inherited)+len(concreteCurrent.Elements))
+			all = append(all, inherited...)
+			return append(all, concreteCurrent.Elements...)
 		}
 	}
 
